@@ -45,8 +45,8 @@ def gen_bfs(pool, depth, name=None, extra='NoExtra', props=None, limit=None, sam
             'consts': c, 'trace': 'Trace_Router', 'props': props, 'limit': limit, 'sample': sample}
 
 
-def gogen(mode, n, name=None, props=None, seedoff=0):
-    return {'kind': 'gogen', 'name': name or ('go-' + mode), 'fam': 'router', 'mode': mode, 'n': n, 'trace': 'Trace_Router', 'props': props,
+def gogen(mode, n, name=None, props=None, seedoff=0, fam='router', trace='Trace_Router'):
+    return {'kind': 'gogen', 'name': name or ('go-' + fam + '-' + mode), 'fam': fam, 'mode': mode, 'n': n, 'trace': trace, 'props': props,
             'seedoff': seedoff, 'min_per_shard': 2}
 
 
@@ -224,8 +224,10 @@ def p_c04(q):
 
 def p_c05(q):
     if q:
-        return [mc_router('T'), gen_bfs('X', 2, sample=0.08), gen_bfs('B', 2, sample=0.15), gogen('bytes', 100)]
-    return [mc_router('T'), gen_bfs('X', 2, sample=0.5), gen_bfs('B', 2), gen_bfs('A', 2, sample=0.5), gogen('bytes', 3000), gogen('mixed', 1000, seedoff=1)]
+        return [mc_router('T'), gen_bfs('X', 2, sample=0.08), gen_bfs('B', 2, sample=0.15), gogen('bytes', 100), gogen('patterns', 1500, seedoff=2),
+                gogen('bytes', 60, fam='match', trace='Trace_Match', seedoff=3)]
+    return [mc_router('T'), gen_bfs('X', 2, sample=0.5), gen_bfs('B', 2), gen_bfs('A', 2, sample=0.5), gogen('bytes', 3000), gogen('mixed', 1000, seedoff=1),
+            gogen('patterns', 30000, seedoff=2), gogen('bytes', 1500, fam='match', trace='Trace_Match', seedoff=3)]
 
 
 def p_c17(q):
